@@ -600,6 +600,10 @@ def newMatchTreeCases : List String :=
 /-- `switch s.Type` arms of `case *query.Type` that build a tree: TypeFileMatch = 0, TypeFileName = 1 -/
 def newMatchTreeTypeArms : List Nat := [0, 1]
 
+/-- a leaf node kind: handled iff the type switch has a `case` for it -/
+def leafOk (cases : List String) (kind what : String) : Outcome Unit :=
+  if cases.contains kind then .ok () else .panic (what ++ kind)
+
 mutual
 /-- `QToProto(q)`: panics in its `default:` for a kind without a `case` (a nil interface included) -/
 def toProto (cases : List String) : Q → Outcome Unit
@@ -609,7 +613,7 @@ def toProto (cases : List String) : Q → Outcome Unit
   | .type _ c => if cases.contains "Type" then toProto cases c else .panic "QToProto:Type"
   | .sym e => if cases.contains "Symbol" then toProto cases e else .panic "QToProto:Symbol"
   | .caseScope c => if cases.contains "caseScopeQ" then toProto cases c else .panic "QToProto:caseScopeQ"
-  | q => if cases.contains q.kind then .ok () else .panic ("QToProto:" ++ q.kind)
+  | q => leafOk cases q.kind "QToProto:"
 def toProtoList (cases : List String) : List Q → Outcome Unit
   | [] => .ok ()
   | q :: qs =>
@@ -632,7 +636,7 @@ def matchTree (cases : List String) (typeArms : List Nat) : Q → Outcome Unit
     else .panic "newMatchTree:Type"
   | .sym e => if cases.contains "Symbol" then matchTree cases typeArms e else .panic "newMatchTree:Symbol"
   | .caseScope _ => .panic "newMatchTree:caseScopeQ"
-  | q => if cases.contains q.kind then .ok () else .panic ("newMatchTree:" ++ q.kind)
+  | q => leafOk cases q.kind "newMatchTree:"
 def matchTreeList (cases : List String) (typeArms : List Nat) : List Q → Outcome Unit
   | [] => .ok ()
   | q :: qs =>
